@@ -27,6 +27,12 @@ Cases == {[group |-> "num", rule |-> r, kind |-> k, bclass |-> b, enc |-> e] :
          \cup {[group |-> "str", rule |-> r, kind |-> "string", bclass |-> "small", enc |-> "default"] : r \in StrRules}
          \cup {[group |-> "rep", rule |-> r, kind |-> k, bclass |-> "small", enc |-> "default"] : r \in RepRules, k \in {"string", "int32"}}
          \cup {[group |-> "map", rule |-> r, kind |-> "string", bclass |-> "small", enc |-> "default"] : r \in MapRules}
+         \* "required" on every shape of field: singular, proto3 optional, repeated, map, message, enum, member of a oneof
+         \cup {[group |-> "req", rule |-> sh, kind |-> k, bclass |-> "small", enc |-> "default"] :
+                  sh \in {"one", "opt", "rep", "map", "oneof_member"}, k \in {"string", "int32", "int64", "bytes", "message", "enum"}}
+         \* ... and fields of those shapes WITHOUT the rule (they must not be listed)
+         \cup {[group |-> "notreq", rule |-> sh, kind |-> k, bclass |-> "small", enc |-> "default"] :
+                  sh \in {"opt", "oneof_member"}, k \in {"string", "message"}}
 \* combinations that cannot exist (negative bounds on unsigned kinds, >2^53 on 32-bit kinds, number
 \* encoding of non-64-bit kinds) are pruned here, not in the harness
 Exists(c) ==
